@@ -33,6 +33,28 @@ type Multi struct {
 	CallA func(id int) []reflect.Value
 }
 
+// Pair2 is a corpus function func(a A, b B) int.
+type Pair2 struct {
+	A, B string
+	Fn   interface{}
+	Call func(a, b reflect.Value) int
+}
+
+// Variadic is a corpus function func(xs ...Elem) int.
+type Variadic struct {
+	Elem string
+	Fn   interface{}
+	Call func(vs []reflect.Value) int
+}
+
+// Meth is a method (*Svc).M_<Out>(id int) Out and the same method of interface SvcI.
+type Meth struct {
+	Out, Name string
+	Call      func(s *Svc, id int) reflect.Value
+	As        interface{} // func(ctx *iface.IContext, id int) Out
+	CallI     func(i SvcI, id int) reflect.Value
+}
+
 var (
 	byName = map[string]*Decl{}
 	byType = map[reflect.Type]string{}
@@ -60,6 +82,34 @@ func NameOf(t reflect.Type) string {
 		return n
 	}
 	return "?"
+}
+
+// Pair2For, VariadicFor, MethFor look the additional corpus functions up.
+func Pair2For(a, b string) *Pair2 {
+	for _, p := range Pairs2 {
+		if p.A == a && p.B == b {
+			return p
+		}
+	}
+	return nil
+}
+
+func VariadicFor(elem string) *Variadic {
+	for _, v := range Variadics {
+		if v.Elem == elem {
+			return v
+		}
+	}
+	return nil
+}
+
+func MethFor(out string) *Meth {
+	for _, m := range Meths {
+		if m.Out == out {
+			return m
+		}
+	}
+	return nil
 }
 
 // MultiFor finds the multi-result corpus function with exactly these result types.
@@ -96,15 +146,49 @@ func sig(ft reflect.Type, skip int) string {
 	return nosp("(" + strings.Join(in, ",") + v + ")(" + strings.Join(out, ",") + ")")
 }
 
+func methTok(m reflect.Method, skip int) string {
+	name := m.Name
+	if m.PkgPath != "" { // unexported: qualified by its package, as in Go's method identity
+		name = nosp(m.PkgPath) + "." + m.Name
+	}
+	return name + "|" + sig(m.Type, skip)
+}
+
+// methods is the method set of t as tokens.  reflect lists only the exported methods of a concrete type; the
+// unexported methods that matter for interface satisfaction are recovered from the catalogue's interfaces: if t
+// implements an interface with unexported methods, t has them (that is what reflect.Implements just established).
 func methods(t reflect.Type) []string {
 	var ms []string
+	seen := map[string]bool{}
 	for i := 0; i < t.NumMethod(); i++ {
 		m := t.Method(i)
 		skip := 1
 		if t.Kind() == reflect.Interface {
 			skip = 0
 		}
-		ms = append(ms, m.Name+"|"+sig(m.Type, skip))
+		tok := methTok(m, skip)
+		if !seen[tok] {
+			seen[tok] = true
+			ms = append(ms, tok)
+		}
+	}
+	if t.Kind() != reflect.Interface {
+		for _, d := range Decls {
+			if d.Typ.Kind() != reflect.Interface || !t.Implements(d.Typ) {
+				continue
+			}
+			for i := 0; i < d.Typ.NumMethod(); i++ {
+				m := d.Typ.Method(i)
+				if m.PkgPath == "" {
+					continue
+				}
+				tok := methTok(m, 0)
+				if !seen[tok] {
+					seen[tok] = true
+					ms = append(ms, tok)
+				}
+			}
+		}
 	}
 	sort.Strings(ms)
 	return ms
@@ -146,9 +230,12 @@ func tyTerm(t reflect.Type, open map[reflect.Type]bool) []string {
 }
 
 func opaque(t reflect.Type) []string {
+	if Direct(t) { // pointer-shaped (e.g. a self-referential struct{next *T}): one pointer word
+		return []string{"strct", "0", "0", "1", "opaque", "ptr", "p.uint8"}
+	}
 	el := map[int]string{1: "uint8", 2: "uint16", 4: "uint32", 8: "uint64"}[t.Align()]
 	n := int(t.Size()) / t.Align()
-	return []string{"strct", "1", "opaque", "arr", strconv.Itoa(n), "p." + el}
+	return []string{"strct", "0", "0", "1", "opaque", "arr", strconv.Itoa(n), "p." + el}
 }
 
 func under(t reflect.Type, open map[reflect.Type]bool) []string {
@@ -171,9 +258,27 @@ func under(t reflect.Type, open map[reflect.Type]bool) []string {
 	case reflect.Interface:
 		return append([]string{"iface"}, listTok(methods(t))...)
 	case reflect.Struct:
-		toks := []string{"strct", strconv.Itoa(t.NumField())}
+		toks := []string{"strct"}
+		if t.Name() == "" { // unnamed struct: methods promoted from embedded fields
+			toks = append(toks, listTok(methods(t))...)
+			toks = append(toks, listTok(methods(reflect.PtrTo(t)))...)
+		} else {
+			toks = append(toks, "0", "0")
+		}
+		toks = append(toks, strconv.Itoa(t.NumField()))
 		for i := 0; i < t.NumField(); i++ {
-			toks = append(toks, nosp(t.Field(i).Name))
+			f := t.Field(i)
+			fname := nosp(f.Name) // tag, embedding and package of an unexported name are part of a struct type's identity
+			if f.Tag != "" {
+				fname += "~tag:" + nosp(string(f.Tag))
+			}
+			if f.Anonymous {
+				fname += "~emb"
+			}
+			if f.PkgPath != "" {
+				fname += "~pkg:" + nosp(f.PkgPath)
+			}
+			toks = append(toks, fname)
 			toks = append(toks, tyTerm(t.Field(i).Type, open)...)
 		}
 		return toks
@@ -369,13 +474,20 @@ func Build(t reflect.Type, toks []string) (reflect.Value, []string) {
 			v.Set(pv)
 			break
 		}
+		zeroContent := id >= 100 // non-nil, but pointing at / holding nothing but zero values
 		switch t.Kind() {
 		case reflect.Ptr:
 			p := reflect.New(t.Elem())
-			fill(p.Elem(), uint64(id)+1, 0)
+			if !zeroContent {
+				fill(p.Elem(), uint64(id)+1, 0)
+			}
 			v.Set(p)
 		case reflect.Map:
 			m := reflect.MakeMap(t)
+			if zeroContent {
+				v.Set(m)
+				break
+			}
 			k := reflect.New(t.Key()).Elem()
 			e := reflect.New(t.Elem()).Elem()
 			fill(k, uint64(id)+1, 0)
@@ -383,6 +495,10 @@ func Build(t reflect.Type, toks []string) (reflect.Value, []string) {
 			m.SetMapIndex(k, e)
 			v.Set(m)
 		case reflect.Slice:
+			if zeroContent {
+				v.Set(reflect.MakeSlice(t, 0, 0))
+				break
+			}
 			s := reflect.MakeSlice(t, 1+id%3, 4)
 			for i := 0; i < s.Len(); i++ {
 				fill(s.Index(i), uint64(id+i)+1, 0)
@@ -446,6 +562,47 @@ func fill(v reflect.Value, seed uint64, depth int) {
 }
 
 // ---------------------------------------------------------------- observations
+
+// Retype views v (copied) as a value of type t of the same size — what a caller passes when the stand-in's bytes are
+// the real argument.  Pointers are converted, everything else is copied into fresh memory and re-read.
+func Retype(v reflect.Value, t reflect.Type) reflect.Value {
+	if v.Type() == t {
+		return v
+	}
+	if v.Kind() == reflect.Ptr && t.Kind() == reflect.Ptr {
+		return reflect.NewAt(t.Elem(), unsafe.Pointer(v.Pointer())).Convert(t)
+	}
+	p := reflect.New(v.Type())
+	p.Elem().Set(v)
+	return reflect.NewAt(t, unsafe.Pointer(p.Pointer())).Elem()
+}
+
+// SafeRetype reports whether viewing v as a t is safe to *dereference and compare* (goom compares When values with
+// reflect.DeepEqual, which follows pointers): identical flattened layout, and no pointer-like leaf unless v is all zero
+// (a pointer field that points at a differently typed object would be followed as the declared pointee type).
+func SafeRetype(v reflect.Value, t reflect.Type) bool {
+	from := v.Type()
+	pointerish := func(l string) bool {
+		for _, c := range []string{":ptr", ":str", ":slice", ":iface", ":map", ":chan", ":func", ":uptr"} {
+			if strings.Contains(l, c) {
+				return true
+			}
+		}
+		return false
+	}
+	switch {
+	case from.Kind() == reflect.Struct && t.Kind() == reflect.Struct:
+		l := Layout(from)
+		return l == Layout(t) && (!pointerish(l) || v.IsZero())
+	case from.Kind() == reflect.Ptr && t.Kind() == reflect.Ptr:
+		if v.IsNil() {
+			return true
+		}
+		l := Layout(from.Elem())
+		return l == Layout(t.Elem()) && !pointerish(l)
+	}
+	return false
+}
 
 // ShapeOf is the canonical description of a reflect.Value's content class, chosen by its (flag) kind:
 // nil | nonnil for the nilable kinds, iface:nil | iface:<catalogue name of the dynamic type>, val otherwise.
@@ -664,6 +821,15 @@ func Catalog() []string {
 	}
 	for _, m := range Multis {
 		out = append(out, fmt.Sprintf("multi %s %s", m.Name, strings.Join(m.Outs, ",")))
+	}
+	for _, p := range Pairs2 {
+		out = append(out, fmt.Sprintf("pair2 %s %s", p.A, p.B))
+	}
+	for _, v := range Variadics {
+		out = append(out, "variadic "+v.Elem)
+	}
+	for _, m := range Meths {
+		out = append(out, "meth "+m.Out)
 	}
 	return out
 }
